@@ -155,7 +155,7 @@ def direct_checks(ctx, N, W):
 
 def run(ctx):
     rng = np.random.default_rng(ctx.seed)
-    ctx.proof_layer(allowed_axioms=core.R_AX, coq_deps=["Corr/RunTriIndex"], gen=["unique_values"])
+    ctx.proof_layer(allowed_axioms=list(core.R_AX) + [core.FLOAT_SPEC], coq_deps=["Corr/RunTriIndex"], gen=["unique_values"])
     core.note_drift(ctx, ANCHORS)
     if ctx.thorough:
         ns = list(range(0, 151))
